@@ -335,7 +335,7 @@ func genDAG(e *emitter, maxNodes int) (*GraphJ, []NamedT) {
 	d := &dagGen{e: e, g: &GraphJ{}}
 	rng := e.rng
 	nIn := 1 + rng.Intn(3)
-	inShapes := [][]int{{2, 3}, {3, 2}, {2, 2, 3}, {1, 2, 3, 3}, {3}, {2, 2}, {2, 1, 2}}
+	inShapes := [][]int{{2, 3}, {3, 2}, {2, 2, 3}, {1, 2, 3, 3}, {3}, {2, 2}, {2, 1, 2}, {}}
 	for i := 0; i < nIn; i++ {
 		s := inShapes[rng.Intn(len(inShapes))]
 		name := d.fresh("in")
@@ -348,7 +348,12 @@ func genDAG(e *emitter, maxNodes int) (*GraphJ, []NamedT) {
 				dims[j] = s[j]
 			}
 		}
-		d.g.Inputs = append(d.g.Inputs, VInfoJ{Name: name, Dt: "f32", Dims: dims})
+		vi := VInfoJ{Name: name, Dt: "f32", Dims: dims}
+		if rng.Intn(8) == 0 { // a declared input that carries no usable shape: still the caller's tensor
+			vi.NoShape = true
+			vi.How = []string{"", "tensor", "shape", "dims"}[rng.Intn(4)]
+		}
+		d.g.Inputs = append(d.g.Inputs, vi)
 		d.pool = append(d.pool, poolT{name, s})
 		// an initializer that is also listed as graph input only supplies its default
 		if rng.Intn(5) == 0 {
@@ -410,6 +415,25 @@ func genC01(e *emitter, tier string) {
 			{Op: "Flatten", Attrs: []Attr{{Name: "axis", Type: "i", I: 0}}, Ins: []string{"x"}, Outs: []string{"c"}},
 			{Op: "Flatten", Ins: []string{"x"}, Outs: []string{"d"}},
 		}, Outputs: []string{"a", "b", "c", "d"}}, []NamedT{{"x", smallT("f32", []int{2, 3}, 1)}}))
+	// recurrent nodes of one type with explicit and with default activations in one graph, either order
+	// (defaults are transcendental: float carrier, compared up to rounding)
+	for _, op := range []string{"RNN", "GRU", "LSTM"} {
+		G := map[string]int{"LSTM": 4, "GRU": 3, "RNN": 1}[op]
+		nact := map[string]int{"LSTM": 3, "GRU": 2, "RNN": 1}[op]
+		for _, other := range [][]string{{"relu", "relu", "relu"}, {"tanh", "sigmoid", "sigmoid"}, {"sigmoid", "relu", "tanh"}} {
+			for _, explicitFirst := range []bool{true, false} {
+				inits := []InitJ{{Name: "W", T: tinyT("f32", []int{1, G * 2, 3}, 1)}, {Name: "R", T: tinyT("f32", []int{1, G * 2, 2}, 2)}}
+				ex := NodeJ{Op: op, Attrs: []Attr{{Name: "hidden_size", Type: "i", I: 2}, {Name: "activations", Type: "strings", Ss: other[:nact]}}, Ins: []string{"x", "W", "R"}, Outs: []string{"Ye", "Yhe"}}
+				df := NodeJ{Op: op, Attrs: []Attr{{Name: "hidden_size", Type: "i", I: 2}}, Ins: []string{"x", "W", "R"}, Outs: []string{"Yd", "Yhd"}}
+				nodes := []NodeJ{ex, df}
+				if !explicitFirst {
+					nodes = []NodeJ{df, ex}
+				}
+				g := &GraphJ{Inputs: []VInfoJ{{Name: "x", Dt: "f32", Dims: []any{"S", 2, 3}}}, Inits: inits, Nodes: nodes, Outputs: []string{"Ye", "Yhe", "Yd", "Yhd"}}
+				e.emit(graphCase("same-type-float", g, []NamedT{{"x", fT("f32", []int{2, 2, 3}, []float64{0.5, -1, 0.25, 1, -0.5, 0.75, -0.25, 0.5, 1, -1, 0.5, 0.25})}}))
+			}
+		}
+	}
 	// an initializer that is also a graph input: the caller's tensor wins, the initializer is the default
 	gI := &GraphJ{Inputs: []VInfoJ{{Name: "x", Dt: "f32", Dims: []any{2}}, {Name: "w", Dt: "f32", Dims: []any{2}}},
 		Inits: []InitJ{{Name: "w", T: vals("f32", []int{2}, 10, 20)}}, Nodes: []NodeJ{{Op: "Add", Ins: []string{"x", "w"}, Outs: []string{"y"}}}, Outputs: []string{"y"}}
